@@ -18,6 +18,9 @@ for pid in props:
           "technique":c.get("technique","contract-based deductive verification: requires/ensures/loop invariants on the real Go functions, VCs generated from go/ssa and discharged by z3/cvc5")})
     else:
         nal.append({"property_id":pid,"reason":na.get(pid,"not claimed in this revision: the functions this property depends on are not yet under contract")})
+import subprocess
+hooks=subprocess.run(["git","-C","/repo","log","--format=%H %s"],capture_output=True,text=True).stdout.splitlines()
+base["hooks"]["source_commits"]=[l.split()[0][:12] for l in hooks if " verif hook" in l][::-1]
 base["engines"][0]["serves_properties"]=[c["property_id"] for c in checks]
 base["checks"]=checks; base["not_applicable"]=nal
 json.dump(base,open('/verif/MANIFEST.json','w'),indent=1)
